@@ -13,6 +13,12 @@ S1_NOTE = ("Trusted base: the baton scheduler and shims (src/verif_hooks.rs in /
            "operation (mutex, condvar, DashMap/DashSet call, atomic, channel, sleep, clock read); interleavings inside those "
            "primitives and weak-memory effects are not explored. Sampled search over seeds, not a proof.")
 
+S2_NOTE = ("Trusted base: the reference stepper (dsim/src/s2/reference.rs, transcribed from the statements of C06/C07/C09, appendix C of "
+           "DESIGN.md), the canonical dump that reads the public fields of ActorModelState/Network, and the script-actor handler tables "
+           "(shared between the real Actor impl and the reference: they are the workload). No threads or clocks are involved in the actor "
+           "model, so the simulator's choices are: the generated system, and which enabled action (delivery, drop, timer, crash, random "
+           "selection) happens next. Sampled search over seeds, not a proof.")
+
 CHECKS = {
  "C01": ("Seeded search over generated finite models x checker configurations x schedules: the real BFS/DFS/on-demand checkers run with 1-4 workers under a deterministic scheduler that owns every synchronisation point; the multiset of states shown to the visitor is compared with an independent reachability analysis, every visitor path is re-executed. Right level because the claim is over all graphs, configurations and interleavings: exhaustive enumeration is impossible, while sampled deterministic schedules reach lost/duplicated work that a single OS schedule never shows.", "5/C01", S1_NOTE, "deterministic simulation (seeded schedule search) + reference reachability oracle"),
  "C02": ("As C01 with 1-5 always/sometimes properties labelled on the states; verdicts compared in both directions with the reference reachable set after completed exhaustive runs; assert_properties/is_done cross-checked.", "5/C02", S1_NOTE, "deterministic simulation + reference verdict oracle"),
@@ -21,6 +27,11 @@ CHECKS = {
  "C11": ("Eventually-properties on forests and general graphs, all strategies/threads: a reported counterexample requires a maximal never-satisfying path in the reference graph; on forests with completed exhaustive runs the converse is demanded too.", "5/C11", S1_NOTE, "deterministic simulation + reference maximal-path oracle"),
  "C12": ("Cross product of finish condition x targets x depth x timeout x threads x strategy sampled swarm-style under a virtual clock (stalls, wall-clock jumps, effectively unbounded counter models): matches() vs reference predicate, justified early stops, target/depth limits, bounded liveness after timeout expiry stated in fair scheduler steps once faults stop, no thread blocked on a lock whose owner sleeps, seed replay of the first simulation trace.", "5/C12", S1_NOTE, "deterministic simulation with virtual time + bounded-liveness oracle"),
  "C13": ("Single-worker BFS with every block size on generated graphs: visit depths must be non-decreasing and equal the reference shortest distance; always/sometimes witness length equals the shortest distance to a witnessing state. Weakest fit for the technique (no interleaving beyond harness vs worker): the simulator contributes seeded programs, the block-boundary knob and replay.", "5/C13", S1_NOTE, "deterministic simulation (seeded programs) + shortest-path oracle"),
+ "C04": ("Seeded fault-heavy walks of generated actor systems (crashes, timers, random choices, drops, all network kinds); every reached state, a perturbed rebuild (shuffled insertion, other hasher keys, spare capacity, remove+reinsert) and its neighbours (crash flag flipped, timer/choice moved to the adjacent actor, message removed), plus container families (sets/maps side by side and nested, Vec<Timers>, VectorClock with trailing zeros, DenseNatMap) go through: equal canonical dump => equal fingerprint, different dump => different sequence of typed Hasher calls (a certain collision whatever the hash function), == <=> equal dump. The perturbation half is seeded value generation around states the simulation reached and is labelled so in the evidence.", "5/C04", S2_NOTE, "deterministic simulation (seeded fault walks) + recording-hasher identity oracle"),
+ "C06": ("Real ActorModel::actions/next_state driven by seeded fault-biased walks in lockstep with an independent reference stepper; at every step the sets of effective (action, successor) pairs must be equal and every successor equal component by component (actor state, network, timers, choices, crash flags, history order).", "5/C06", S2_NOTE, "deterministic simulation (seeded fault walks) + lockstep reference model"),
+ "C07": ("As C06 on traffic-heavy systems (repeated identical messages, several per flow, initial contents, drops, redeliveries) for the three network kinds x lossy: content equals the reference flows/multiset/set after every step; deliverable set, drop offers, len(), iter_all() (consumed with a hard cap so a non-terminating iterator is a finding, not a hang) and iter_deliverable() agree with the content.", "5/C07", S2_NOTE, "deterministic simulation (message-fault walks) + reference network model"),
+ "C09": ("As C06 with crash budgets 1-2 and crashes forced right after a send to the victim, with timers armed and choices pending: crash offered <=> actor up and fewer than k down; crash only sets the flag and clears the victim's timers/choices; no step of a crashed actor is ever effective, deliveries to it leave the message in place.", "5/C09", S2_NOTE, "deterministic simulation (crash-point injection) + reference crash semantics"),
+ "C10": ("S2 half: representative() of every state reached by seeded walks equals the state permuted by the stable argsort of the actor states (actor order, envelope endpoints, ids inside messages/history/local state, timers, crash flags, choices), computed by harness code.", "5/C10", S2_NOTE, "deterministic simulation (seeded walks) + permutation oracle"),
 }
 
 PENDING = {
